@@ -9,10 +9,11 @@
 EXTENDS Ndp6Hunt, Json
 
 CONSTANTS T1, T2, T3, L1, L2, G1, V41, R1, R2, RM1, RM2,      \* members of the universes by name
+          CaptureMACs,                                        \* MACs the application may flag with Session.Capture / Release
           OtherV6,                                            \* IPv6 addresses that are neither link-local unicast nor G1 (subset of GUAs)
           MaxLoops, MaxDepth, Bounded, ExportEvery
 VARIABLES bad, depth, hist
-mcvars == <<hunt, loops, routers, raCount, closed, panicked, out, ev, refHunt, refClosed, refRouters, rl, pre, bad, depth, hist>>
+mcvars == <<hunt, loops, routers, raCount, closed, panicked, captured, out, ev, refHunt, refClosed, refRouters, rl, pre, bad, depth, hist>>
 
 \* t1 has two link-local addresses, t2 is address-less, t3 is known by a global and an IPv4 address
 StartChoices == {<<T1, L1>>, <<T1, L2>>, <<T2, NoIP>>, <<T3, G1>>, <<T3, V41>>, <<T3, L2>>} \cup {<<T3, x>> : x \in OtherV6}
@@ -41,6 +42,9 @@ MCNext == ~panicked /\ (~Bounded \/ depth < MaxDepth) /\
         \/ ~loops[l].woken /\ ~closed /\ Timeout(l) /\ Step([a |-> "timeout", l |-> l])
         \/ WakeByRA(l) /\ Step([a |-> "wake", l |-> l])
   \/ \E c \in RAChoices : RecvRA(c[1], c[2], c[3]) /\ Step([a |-> "ra", src |-> c[1], rmac |-> c[2], kind |-> c[3]])
+  \/ \E m \in CaptureMACs :
+        \/ m \notin captured /\ Capture(m, TRUE) /\ Step([a |-> "capture", mac |-> m])
+        \/ m \in captured /\ Capture(m, FALSE) /\ Step([a |-> "release", mac |-> m])
   \/ \E k \in OtherKinds : RecvOther(k) /\ Step([a |-> "other", kind |-> k])
 
 MCSpec == MCInit /\ [][MCNext]_mcvars
@@ -63,7 +67,7 @@ Export == (Bounded /\ depth = MaxDepth /\ (ExportEvery = 1 \/ RandomElement(1..E
 ExportBad == (Bounded /\ bad # "none" /\ ev.kind # "init") => PrintT(ToJson([bad |-> bad, hist |-> hist]))
 NotBad == bad = "none"
 
-View == <<hunt, loops, routers, raCount, closed, panicked, refHunt, refClosed, refRouters, rl, bad, depth>>
+View == <<hunt, loops, routers, raCount, closed, panicked, captured, refHunt, refClosed, refRouters, rl, bad, depth>>
 
 -----------------------------------------------------------------------------
 (* fairness configuration: after an effective StopHunt or Close every loop instance of that MAC ends *)
